@@ -50,9 +50,13 @@ pub fn driver_tiny() -> Driver {
         "let gg = f",
         "gg(3)",
         "  let   c = 2 m  ",
+        // a result that the end-of-input simplification changes, and a consumer of `ans` whose
+        // raw value is observed (hook): batched and incremental runs must agree on it
+        "5 km / (2 m)",
+        "let r = ans",
     ];
     let probes = [
-        "a", "b", "c", "f(2)", "g(1)", "ans", "ma_x", "mb_y", "xs", "gg(1)", "2 u", "S { x: 1 }",
+        "a", "b", "c", "f(2)", "g(1)", "ans", "ma_x", "mb_y", "xs", "gg(1)", "2 u", "S { x: 1 }", "r",
     ];
     Driver {
         name: "tiny",
@@ -80,8 +84,12 @@ pub fn driver_prelude() -> Driver {
         "sum(xs) + a",
         "let gg = f",
         "gg(3 m)",
+        "5 km / (2 m)",
+        "3 J / (2 s)",
+        "let r = ans",
+        "value_of(ans)",
     ];
-    let probes = ["a", "f(1 m)", "ans", "xs", "gg(1 m)", "2 smoot2 -> m", "quadratic_equation(1, 0, -4)"];
+    let probes = ["a", "f(1 m)", "ans", "xs", "gg(1 m)", "2 smoot2 -> m", "quadratic_equation(1, 0, -4)", "r"];
     Driver {
         name: "prelude",
         base: prelude_ctx(),
